@@ -529,3 +529,27 @@ fn replay(_sub: &str, case: &Json) -> Option<CaseResult> {
     let c: Case = serde_json::from_value(case.get("case")?.clone()).ok()?;
     Some(check_case(&c, case.get("label").and_then(|l| l.as_str()).unwrap_or("anybytes")))
 }
+
+/// libFuzzer entry: raw bytes with a derived chunking (mode even) or a generated case.
+pub fn fuzz(f: &mut FuzzIn) -> Option<CaseResult> {
+    if f.mode % 2 == 0 {
+        let (q, rest) = f.raw_q_input();
+        if rest.len() < 3 || rest.len() > 300 {
+            return None;
+        }
+        let (h, input) = rest.split_at(3);
+        let api = match h[0] % 4 {
+            0 => Api::Value,
+            1 => Api::Datum,
+            2 => Api::Iter,
+            _ => Api::IterDatum,
+        };
+        let chunks: Vec<usize> = vec![1 + (h[1] % 8) as usize, 1 + (h[1] / 8 % 8) as usize, 1 + (h[1] / 64) as usize];
+        let interrupts: Vec<bool> = (0..6).map(|i| h[2] >> i & 1 == 1).collect();
+        let bufcap = [0usize, 1, 2, 3, 8][(h[0] / 4 % 5) as usize];
+        let c = Case { input: input.to_vec(), q, api, chunks, interrupts, bufcap };
+        return Some(check_case(&c, "anybytes"));
+    }
+    let (c, l) = f.draw(&g_case(200))?;
+    Some(check_case(&c, l))
+}
